@@ -61,11 +61,21 @@ def n2i_spec(I, data, ch):
             r = stamp(SymSeq('list', ch.n, lambda I_, i, src=src: I_.pure_elem_nofork(src, i)))
             return r
         if kind == 'str':
+            # one resolution function per (name list, channel tuple): resolving the same list twice gives the same positions
+            pk, pi = z3.Int('n2i_probe_k'), z3.Int('n2i_probe_i')
+            ckey = (I.z(I.pure_elem_nofork(ch, pk)).sexpr(), chan_term(I, chans, pi).sexpr(), z3.simplify(n).sexpr())
+            cache = getattr(I.ctx, '_n2i_cache', None)
+            if cache is None:
+                cache = I.ctx._n2i_cache = {}
             i = z3.Int('n2i_i')
             known = z3.Exists([i], z3.And(0 <= i, i < D, chan_term(I, chans, i) == v))
             if I.ctx.branch(z3.Exists([k], z3.And(0 <= k, k < n, z3.Not(known)))):
                 raise_py('ValueError', 'not a valid channel name')
+            if ckey in cache:
+                idx = cache[ckey]
+                return stamp(SymSeq('list', ch.n, lambda I_, i_, idx=idx: SV(idx(i_), 'int')))
             idx = I.ctx.fresh_fn('n2i_idx', z3.IntSort(), z3.IntSort())
+            cache[ckey] = idx
             j = z3.Int('n2i_j')
             I.ctx.assume(z3.ForAll([k], z3.Implies(z3.And(0 <= k, k < n),
                                                    z3.And(0 <= idx(k), idx(k) < D, chan_term(I, chans, idx(k)) == v)),
@@ -73,7 +83,9 @@ def n2i_spec(I, data, ch):
             I.ctx.assume(z3.ForAll([k, j], z3.Implies(z3.And(0 <= k, k < n, 0 <= j, j < idx(k)),
                                                       chan_term(I, chans, j) != v)))
             return stamp(SymSeq('list', ch.n, lambda I_, i_, idx=idx: SV(idx(i_), 'int')))
-        raise_py('TypeError', 'input argument should be an integer, string or list of integers or strings')
+        if I.ctx.branch(n > 0):
+            raise_py('TypeError', 'input argument should be an integer, string or list of integers or strings')
+        return stamp(Seq('list', []))
     kind = I.kind(ch)
     if kind == 'str':
         s = I.z(ch)
@@ -85,7 +97,7 @@ def n2i_spec(I, data, ch):
         I.ctx.assume(z3.And(0 <= r, r < D, chan_term(I, chans, r) == s))
         I.ctx.assume(z3.ForAll([j], z3.Implies(z3.And(0 <= j, j < r), chan_term(I, chans, j) != s)))
         return I.mk(r, 'int')
-    if kind in ('int', 'bool') and not (isinstance(ch, SV) and ch.np):
+    if kind == 'int' and not (isinstance(ch, SV) and ch.np):
         c = I.z(ch, 'int')
         if not I.ctx.branch(z3.And(c < D, c >= -D)):
             raise_py('ValueError', 'index out of range')
